@@ -2,7 +2,7 @@
 sourceview.rs: RevTokenIter::next and SourceView::get_original_function_name (C17)"""
 import re
 from vx.rs import Fn, LostAnchor, mask, match_close
-from .common import emit_free_fn, emit_method, guarded
+from .common import emit_free_fn, emit_method, guarded, emit_struct, expand_if_chain, import_method
 
 NAME = 'u20_funcname'
 PROPS = ['C17', 'C05']
@@ -10,6 +10,10 @@ J = 'src/js_identifiers.rs'
 S = 'src/sourceview.rs'
 
 MUTANTS = [
+    ('sourceview::RevTokenIter::next', r'new_offset -= c\.len_utf8\(\);', 'new_offset -= 1;'),
+    ('sourceview::RevTokenIter::next', r'if idx >= chars_to_move \{', 'if idx > chars_to_move {'),
+    ('sourceview::RevTokenIter::next', r'self\.source_line = None;', ''),
+    ('sourceview::RevTokenIter::next', r'if idx >= token\.get_dst_col\(\) as usize \{', 'if idx > token.get_dst_col() as usize {'),
     ('js_identifiers::is_valid_start', r"c == '\$' \|\| c == '_' \|\|", "c == '$' ||"),
     ('js_identifiers::is_valid_continue', r"c == '\\u\{200c\}' \|\| ", ''),
     ('js_identifiers::strip_identifier', r'end_idx = i \+ c\.len_utf8\(\);', 'end_idx = i + 1;'),
@@ -18,13 +22,63 @@ MUTANTS = [
 ]
 
 
+def prep_rti_next(f, u):
+    expand_if_chain(f, u)
+    n = f.rewrite(r'for c in source_line\.chars\(\) \{', 'for c in verif_chars(source_line) {', expect=1)
+    n += f.rewrite(r'source_line\s*\.get\(\.\.last_byte_offset\)\s*\.unwrap_or\(""\)\s*\.chars\(\)\s*\.rev\(\)', 'verif_chars_rev(verif_str_get_to(source_line, last_byte_offset).unwrap_or(""))', expect=1)
+    n += f.rewrite(r'\bc\.len_utf16\(\)', 'verif_len_utf16(c)', expect=2)
+    n += f.rewrite(r'source_line\s*\.get\(byte_offset\.\.\)\s*\.and_then\(get_javascript_token\)', 'verif_and_then(verif_str_get_from(source_line, byte_offset), get_javascript_token)', expect=1)
+    u.count('R-shim-call', n)
+    u.count('R-trait-inherent')
+
+
 def build(u):
+    from .u19_sourceview import seq_sig, prep_get_line
     u.use_overlay('u20_funcname.ctr')
     u.use('use vstd::utf8::*;')
     u.use('use vstd::string::StringSliceAdditionalSpecFns;')
+    u.use('use vstd::std_specs::cmp::*;')
+    u.use('use vstd::std_specs::hash::*;')
+    u.use('use std::cmp::Ordering;')
+    u.use('use std::sync::Arc;')
+    u.use('use std::collections::BTreeSet;')
+    u.prelude('arc_str.rs')
+    u.prelude('debugid_stub.rs')
     u.prelude('shim_chars.rs')
+    u.prelude('shim_sourceview.rs')
     u.spec('utf.rs')
     u.spec('jsident.rs')
+    # types: the real SourceView (R-seq, as in U19), RawToken / Token / SourceMap, RevTokenIter (holds the view: `&mut` under R-seq)
+    for name, subs, rule in [('SourceView', [(r'\bAtomicUsize\b', 'SeqAtomicUsize'), (r'\bMutex<', 'SeqMutex<')], 'R-stub-type'),
+                             ('RevTokenIter', [(r"&'view SourceView\b", "&'view mut SourceView")], 'R-seq')]:
+        text, origin = u.get_item_text(S, r'(?m)^pub struct %s\b' % name, 'struct ' + name)
+        text, n = re.subn(r'(?m)^\s*//[/!][^\n]*\n', '', text)
+        u.count('R-attr', n)
+        for a, b in subs:
+            text, n = re.subn(a, b, text)
+            if n != 1:
+                raise LostAnchor('struct %s: %r found %d times' % (name, a, n))
+            u.count(rule, n)
+        text, n = re.subn(r'(?m)^(\s+)(?:pub(?:\([a-z]+\))? )?([a-z_][a-z0-9_]*: )', r'\1pub \2', text)
+        u.count('R-vis', n)
+        u.emit_text('sourceview::' + name, text, origin)
+    T = 'src/types.rs'
+    emit_struct(u, T, 'RawToken', keep_derive=True)
+    emit_struct(u, T, 'Token', keep_derive=True)
+    emit_struct(u, T, 'SourceMap')
+    u.spec('order.rs')
+    u.spec('tokens.rs')
+    u.raw('token_at', '//@@ prelude token_at\npub open spec fn token_at<\'a>(sm: &\'a SourceMap, k: int) -> Token<\'a> { Token { raw: &sm.tokens@[k], sm: sm, idx: k as usize, offset: 0 } }\n//@@ endprelude\n')
+    u.spec('sourceview.rs')
+    u.spec('funcname.rs')
+    # contracts proved elsewhere
+    def ann_get_token(f):
+        u.count('R-closure', f.annotate_closure('raw', 'raw: &RawToken', "(o: Token<'_>) ensures o.raw == raw && o.sm == self && o.idx == idx && o.offset == 0", expect=1))
+    import_method(u, T, r'SourceMap\b', 'get_token', 'types::SourceMap::get_token', 'u2_lookup.ctr', 'u2_lookup', prep=ann_get_token)
+    for g in ['get_dst_line', 'get_dst_col']:
+        import_method(u, T, r"<'a> Token<'a>", g, 'types::Token::' + g, 'u2_lookup.ctr', 'u2_lookup')
+    import_method(u, T, r"<'a> Token<'a>", 'get_name', 'types::Token::get_name', 'u6_root.ctr', 'u6_root')
+    import_method(u, S, r'SourceView\b', 'get_line', 'sourceview::SourceView::get_line', 'u19_sourceview.ctr', 'u19_sourceview', prep=lambda f: seq_sig(f, u))
     emit_free_fn(u, J, 'is_valid_start', 'js_identifiers::is_valid_start')
     emit_free_fn(u, J, 'is_valid_continue', 'js_identifiers::is_valid_continue')
 
@@ -41,3 +95,6 @@ def build(u):
     def prep_tok(f):
         u.count('R-shim-call', f.rewrite(r'source_line\.split_whitespace\(\)\.next\(\)', 'verif_first_word(source_line)', expect=1))
     emit_free_fn(u, J, 'get_javascript_token', 'js_identifiers::get_javascript_token', prep=prep_tok)
+
+    guarded(u, 'sourceview::RevTokenIter::next', lambda: u.get_fn(S, 'next', impl=r"<'view, 'map> Iterator for RevTokenIter<'view, 'map>"), lambda f: prep_rti_next(f, u),
+            wrap=lambda: ("impl<'view, 'map> RevTokenIter<'view, 'map> {", '}'))
